@@ -30,6 +30,11 @@ def check(prog, run):
     run.rule("R-options", "no option of a library call inside the indicator functions is dropped by a truth test (`axis=0`, `keepdims=False` are settings)", 1)
     qs_ = sorted(q for q in prog.reachable([prog.func("functions.gen." + n_).qual for n_ in FUNCS]) if q in prog.functions)
     astq.dropped_options_rule(prog, run, "R-options", qs_)
+    run.rule("R-one-object", "inside the indicator functions no in-place operation touches an array that is also known by another local name which is used afterwards "
+             "(the same object handed in for both sets, a prepared copy re-used for the second set)", 0)
+    from ..effects import alias_inplace_rule
+    raw_ = prog.raw
+    alias_inplace_rule(raw_, run, "R-one-object", sorted(q for q in raw_.reachable([raw_.func("functions.gen." + n_).qual for n_ in FUNCS]) if q in raw_.functions))
     I = Interp(prog)
     seen = set()
     one = {
